@@ -16,7 +16,7 @@ def build(tier, seed):
     T = 240 if quick else 600
     obs = []
     # O1: hex payload
-    for n in ((1, 2, 3) if quick else (1, 2, 3, 4, 6)):
+    for n in ((1, 2, 3) if quick else (1, 2, 3, 4)):
         obs.append(Ob(
             oid="O1.hex.n%d" % n, sig="data: bytes", pre=["len(data) == %d" % n], header=HDRF, timeout=T,
             body=r'''
